@@ -201,7 +201,12 @@ def sym_sorter(vc):
                 it_.emit(Ev('Call', target=o, method='items', args=(), kwargs=dict(k), result=out, objs=()))
                 return out
             db.attrs['call:items'] = items
-            m.attrs['KVFile'] = UFunc('KVFile', lambda it_, a, k: db, True)
+            ctor = {}
+
+            def KV(it_, a, k):
+                ctor['args'] = (tuple(a), dict(k))
+                return db
+            m.attrs['KVFile'] = UFunc('KVFile', KV, True)
             rows = row_stream(it, 'rows')
             tag = '[reverse=%s]' % reverse
 
@@ -241,6 +246,9 @@ def sym_sorter(vc):
                 ic = calls(evs, method='items')
                 check(it, 'iterates-the-store-in-the-requested-direction' + tag, len(ic) == 1 and ic[0].kwargs.get('reverse') is reverse)
                 check(it, 'batch-size-forwarded' + tag, inserted.get('kw', {}).get('batch_size') == 1000)
+                # T6 (what comes back out of the store is equal to what went in, whatever the kind of value: microseconds, Decimals,
+                # tuples) is assumed for the store AS THE LIBRARY CREATES IT BY DEFAULT; another serializer is another contract
+                check(it, 'rows-are-parked-in-a-store-with-the-default-lossless-serializer' + tag, ctor.get('args') == ((), {}))
                 post = evs[it.path.info['exit_mark']:]
                 check(it, 'store-closed-after-the-last-row' + tag, [x for x in effect_names(post) if x != 'Exhausted'] == ['db.close'])
         paths = vc.explore(fk, thunk, min_paths=3)
